@@ -206,6 +206,82 @@ def judge(ctx, results, site_of=lambda tr: "%s/%s" % (tr["algo"], tr["form"])):
         print("note: clauses owned by other clustering properties failed: %s" % other)
 
 
+def validate_large(ctx, traces, label="large clustering results"):
+    """Trace_ClusterLarge.tla: only the RESULT of each run is judged (linear clauses); returns [(trace, fails)]"""
+    recs = []
+    for tr in traces:
+        res = [e for e in tr["events"] if e["ev"] == "result"]
+        rz = [e for e in tr["events"] if e["ev"] == "raise"]
+        if not res:
+            recs.append((tr, {"NoException" if rz else "ControlFlow"}))
+            continue
+        e = res[0]
+        recs.append((tr, dict(pts=tr["pts"], metric=tr["metric"], k=tr["k"], ctrIdx=e["ctrIdx"], ctrXY=e["ctrXY"],
+                              asg=e["asg"], dist=e["dist"], inputs_same=bool(e["inputs_same"]))))
+    todo = [r for _, r in recs if isinstance(r, dict)]
+    verdicts = {}
+    if todo:
+        d = core.spec_tmp(SPEC_DIR)
+        for f in os.listdir(os.path.join(core.SPECS, "common")):
+            pass
+        tf = os.path.join(d, "large.json")
+        with open(tf, "w") as fh:
+            json.dump(todo, fh)
+        core.write_cfg(os.path.join(d, "large.cfg"), init="Init", next_="Next", invariants=["Report"])
+        r = ctx.tlc("Trace_ClusterLarge", "large.cfg", d, label="%s (%d)" % (label, len(todo)), workers=2,
+                    env={"TRACE_FILE": tf}, timeout=1500)
+        for t, p in r.prints:
+            if t == "VERDICT":
+                verdicts[p[0]] = set(p[1])
+    out, k = [], 0
+    for tr, r in recs:
+        if isinstance(r, dict):
+            k += 1
+            out.append((tr, verdicts.get(k)))
+        else:
+            out.append((tr, r))
+    return out
+
+
+def judge_large(ctx, results):
+    own = OWN.get(ctx.pid)
+    for tr, fails in results:
+        ctx.traces += 1
+        ctx.case(("large", tr["algo"], tr["form"], len(tr["pts"]), tr["k"]))
+        if fails is None:
+            raise core.MachineryError("Trace_ClusterLarge gave no verdict for a large run")
+        for clause in sorted(fails):
+            if own is None or clause.startswith(own) or clause.startswith("Stop."):
+                ctx.violation({"kind": "trace-rejected", "clause": clause,
+                               "run": {k: tr[k] for k in ("metric", "algo", "form", "k", "cut", "init", "sweeps", "seed")},
+                               "n_frames": len(tr["pts"]), "pts": tr["pts"],
+                               "events": [e for e in tr["events"] if e["ev"] in ("result", "raise")],
+                               "how": "Trace_ClusterLarge.tla clause fails on the result of a large run"},
+                              key="%s/%s/large/%s" % (tr["algo"], tr["form"], clause))
+
+
+def large_runs(rng, count=2):
+    """a few data sets with hundreds of frames and more than 128 clusters / initial centers (sizes at which
+    implementations switch to other code paths); validated by the same trace specification"""
+    out = []
+    for q in range(count):
+        n = int(rng.randint(240, 300))
+        seen, pts = set(), []
+        while len(pts) < n:
+            p = (int(rng.randint(0, 40)), int(rng.randint(0, 40)))
+            if p not in seen:
+                seen.add(p)
+                pts.append(list(p))
+        ninit = int(rng.randint(130, 150))
+        init = [int(x) for x in rng.choice(n, size=ninit, replace=False)]
+        metric = ("l1", "l2sq")[q % 2]
+        out.append(dict(pts=pts, metric=metric, algo="kcenters", k=ninit + 6, cut=0, init=init, ti=bool(q % 2),
+                        form="function", dtype="float64", scale=1.0, layout="C"))
+        out.append(dict(pts=pts, metric=metric, algo="hybrid", k=ninit + 3, cut=0, init=init, sweeps=1, seed=q,
+                        form=("function", "estimator")[q % 2], dtype="float64", scale=1.0, layout="C"))
+    return out
+
+
 def random_runs(rng, n_runs, algos, max_n=40):
     """seeded random integer data sets beyond the exhaustive scope"""
     out = []
